@@ -74,14 +74,26 @@ def get(ext, addpath):
     return _S[key]
 
 
+_ROUTES = {}
+
+
 def build(neighbor, api, specs, attrs_text):
-    """specs: list of (fam, index, nh_idx, mask) -> (routes)"""
+    """specs: list of (fam, index, nh_idx, mask) -> (routes).  Parsed routes are memoised per worker and
+    attribute text (the same prefixes recur for the counts N-1, N, N+1, ... of one grid point)."""
+    cache = _ROUTES.setdefault((id(neighbor), attrs_text), {})
+    if len(_ROUTES) > 4:
+        for k in list(_ROUTES)[:-2]:
+            del _ROUTES[k]
     routes = []
-    for fam, i, nh, mask in specs:
-        rs = api.api_route(route_text(fam, i, nh, attrs_text, mask), 'announce')
-        if len(rs) != 1:
-            raise core.HarnessError('route text refused: ' + route_text(fam, i, nh, attrs_text, mask))
-        routes.append(neighbor.resolve_self(rs[0]))
+    for spec in specs:
+        r = cache.get(spec)
+        if r is None:
+            fam, i, nh, mask = spec
+            rs = api.api_route(route_text(fam, i, nh, attrs_text, mask), 'announce')
+            if len(rs) != 1:
+                raise core.HarnessError('route text refused: ' + route_text(fam, i, nh, attrs_text, mask))
+            r = cache[spec] = neighbor.resolve_self(rs[0])
+        routes.append(r)
     return routes
 
 
@@ -165,7 +177,8 @@ def run_point(pt):
     for fam in pt['fams']:
         n = pt['counts'][fam]
         for j in range(n):
-            spec = (fam, idx, j % pt['nh'], pt['mask'])
+            # IPv4 unicast routes in one collection share the NEXT_HOP attribute (the RIB groups them by next hop)
+            spec = (fam, idx, 0 if fam == 'v4' else j % pt['nh'], pt['mask'])
             if pt['mode'] in ('announce', 'both'):
                 specs_a.append(spec)
             if pt['mode'] == 'withdraw':
@@ -235,7 +248,7 @@ def worker(args):
     tier, shard, nshards = args
     res = {'exec': 0, 'viol': {}, 'outcomes': set(), 'nontrivial': 0, 'samples': []}
     for gi, g in enumerate(grid(tier)):
-        if gi % nshards != shard:
+        if gi != shard:
             continue
         # exact-fit count per family, measured
         fits = {}
@@ -283,7 +296,7 @@ def worker(args):
                 if len(res['samples']) < 1 and nmsg > 1:
                     res['samples'].append({'point': _j(pt), 'messages': nmsg})
     # no room for even one prefix: zero messages, no exception, never an oversized one
-    if shard == 0:
+    if shard == -1:
         for ext in (False, True):
             size = 65535 if ext else 4096
             for fam in ('v4', 'v6', 'vpn4'):
@@ -291,6 +304,8 @@ def worker(args):
                     o = probe_overhead(ext, False, fam, 0, 0, 24)
                     fixed, p = o
                     pad = size - fixed - slack
+                    if pad > 255:
+                        pad -= 1  # the padding attribute needs an extended (2-byte) length above 255 bytes
                     if pad < 0:
                         continue
                     pt = dict(ext=ext, addpath=False, fams=(fam,), nh=1, pad=pad, ncomm=0, mask=24, size=size, counts={fam: 3}, mode='announce')
@@ -329,11 +344,13 @@ def run(ctx: core.Ctx) -> None:
     ctx.rule = ('grid: max size {4096, 65535} x ADD-PATH x family mix {v4, v6, vpnv4, v4+v6, v4+v6+vpnv4} x prefix size (/24, /32) x 1-2 next hops x attribute block padded byte by byte (0..9) and around the 255-byte '
                 'extended-length threshold (62-64 communities) x counts {N-1, N, N+1, 2N, 2N+1} around the measured exact-fit N x {announce, withdraw, both}; plus attribute blocks leaving {-1..40} bytes of room; non-trivial = more than one message generated')
     ctx.assumptions += ['reference decoder vt/ref/wire.py', 'duplicates of a requested item are tolerated, foreign items are not']
-    nshards = 64
+    g = grid(ctx.tier)
+    order = sorted(range(len(g)), key=lambda i: (not g[i]['ext'], -len(g[i]['fams'])))
+    jobs = [(ctx.tier, i, len(g)) for i in order] + [(ctx.tier, -1, len(g))]
     pool = mp.Pool(min(16, os.cpu_count() or 1))
     outcomes = set()
     try:
-        for res in pool.imap_unordered(worker, [(ctx.tier, i, nshards) for i in range(nshards)]):
+        for res in pool.imap_unordered(worker, jobs, chunksize=1):
             ctx.count('executions', res['exec'])
             ctx.count('nontrivial', res['nontrivial'])
             outcomes.update(res['outcomes'])
